@@ -69,8 +69,30 @@ type Case struct {
 	TokenKind      string `json:"token_kind,omitempty"`      // revocation: access | refresh
 	Hint           string `json:"hint,omitempty"`            // revocation: token_type_hint
 	Fault          string `json:"fault,omitempty"`           // storage fault during the request: client-lookup | secret-check | key-lookup (+ ":partial")
+	// Owner: whose grant material (code / refresh token / device code / token to introspect or revoke) the request carries:
+	// "" = the client the credentials name | other = the OTHER registered client (whose credentials the request never carries)
+	Owner string `json:"owner,omitempty"`
+	// RiderIn: where the conflicting client_id (BodyID) travels: "" = form body (replacing any client_id of the presentation) |
+	// url = URL query, next to whatever the body carries (for POST / client_id-only presentations: a second client_id value)
+	RiderIn string `json:"rider_in,omitempty"`
+	// Z: registration of the other client for this request (nil: Hist.Z, else the inert default: confidential web client without grants)
+	Z *Reg `json:"z,omitempty"`
+	// Opts: the OPTIONAL parameters of the grant / endpoint (nil = the fixed default set)
+	Opts *Opts `json:"opts,omitempty"`
 	// Hist: what happened in the process before this request (see history_test.go); nil = a fresh provider sees this one request
 	Hist *History `json:"hist,omitempty"`
+}
+
+// Opts are the optional request parameters of a grant: none of them may change who is authenticated or which grant
+// registration is required; they only select the path the handler takes.
+type Opts struct {
+	Scope    string   `json:"scope,omitempty"`      // "" = default of the grant | "-" = parameter absent | value of the scope parameter
+	ReqType  string   `json:"req_type,omitempty"`   // token exchange requested_token_type: "" absent | access | refresh | id | jwt | bogus
+	SubjType string   `json:"subj_type,omitempty"`  // token exchange subject token: "" = refresh token | access | id
+	Actor    string   `json:"actor,omitempty"`      // token exchange actor_token: "" none | access | refresh
+	Audience []string `json:"audience,omitempty"`   // token exchange
+	Resource []string `json:"resource,omitempty"`   // token exchange
+	Hint     string   `json:"hint,omitempty"`       // introspection: token_type_hint
 }
 
 const (
@@ -201,6 +223,8 @@ func genCase0(t *rapid.T) Case {
 	if strings.HasPrefix(c.Pres, "basic-") || strings.HasPrefix(c.Pres, "assert-") {
 		c.BodyID = rapid.SampledFrom([]string{"", "", "", "", "", "same", "other", "ghost"}).Draw(t, "bodyid")
 	}
+	genForeign(t, &c)
+	genOpts(t, &c)
 	c.ParamsIn = rapid.SampledFrom([]string{"body", "body", "body", "body", "body", "body", "body", "query-grant", "query-grant", "query-all", "get"}).Draw(t, "params")
 	if c.Endpoint != "token" && c.ParamsIn == "query-grant" {
 		c.ParamsIn = "body"
@@ -213,6 +237,132 @@ func genCase0(t *rapid.T) Case {
 		c.Fault = rapid.SampledFrom([]string{"client-lookup", "secret-check", "key-lookup", "client-lookup:partial", "key-lookup:partial"}).Draw(t, "fault")
 	}
 	return c
+}
+
+// ownerMaterial: does the request carry grant material that belongs to one client (as opposed to material that is the caller's
+// own credential - client_credentials, a jwt-bearer assertion - or anybody's - a token-exchange subject token - or none at all)?
+func ownerMaterial(c Case) bool {
+	switch c.Endpoint {
+	case "introspection", "revocation":
+		return true
+	case "token":
+		return c.Grant == vkit.GCode || c.Grant == vkit.GRefr || c.Grant == vkit.GDevice
+	}
+	return false
+}
+
+// riderable: presentations next to which a conflicting client_id form value can ride without replacing anything
+func riderable(pres string) bool {
+	return strings.HasPrefix(pres, "basic-") || strings.HasPrefix(pres, "assert-")
+}
+
+// genForeign: whose material the request carries, where a conflicting client_id travels, and a live registration for the
+// other client (so that it has something worth stealing: it can be served on its own credentials).
+func genForeign(t *rapid.T, c *Case) {
+	if ownerMaterial(*c) && rapid.IntRange(0, 3).Draw(t, "owner.other") == 0 {
+		c.Owner = "other"
+		// the credentials of one client + a client_id naming the other + the other's material: the corner where "who was
+		// authenticated" and "for whom does the endpoint act" can come apart
+		if riderable(c.Pres) && rapid.Bool().Draw(t, "owner.rider") {
+			c.BodyID = "other"
+		}
+	}
+	switch {
+	case riderable(c.Pres):
+		if c.BodyID != "" && rapid.IntRange(0, 3).Draw(t, "rider.url") == 0 {
+			c.RiderIn = "url"
+		}
+	case strings.HasPrefix(c.Pres, "post-") || c.Pres == "none":
+		// the presentation itself puts client_id into the body: a second, conflicting value travels in the URL
+		lim := 7
+		if c.Owner == "other" {
+			lim = 2
+		}
+		if rapid.IntRange(0, lim).Draw(t, "rider.second") == 0 {
+			c.BodyID = rapid.SampledFrom([]string{"other", "other", "ghost"}).Draw(t, "rider.second.id")
+			c.RiderIn = "url"
+		}
+	}
+	if (c.Owner == "other" || c.BodyID == "other") && rapid.IntRange(0, 2).Draw(t, "z.live") > 0 {
+		z := genReg(t, "z.", &c.Reg)
+		c.Z = &z
+	}
+}
+
+var (
+	scopeOpts   = []string{"-", "openid", "profile", "openid profile", "openid email", "openid offline_access", vkit.CustomScope}
+	audienceSet = []string{"https://api.example.com", otherID, "urn:svc:a"}
+)
+
+// genOpts: the optional parameters of the grant / endpoint as a dimension of their own.
+func genOpts(t *rapid.T, c *Case) {
+	te := c.Endpoint == "token" && c.Grant == vkit.GTE
+	lim := 2
+	if te {
+		lim = 1
+	}
+	if rapid.IntRange(0, lim).Draw(t, "opts.on") == lim {
+		return
+	}
+	o := &Opts{}
+	scoped := c.Endpoint == "device_authorization" || (c.Endpoint == "token" && (c.Grant == vkit.GRefr || c.Grant == vkit.GCC || c.Grant == vkit.GBearer || c.Grant == vkit.GTE || c.Grant == vkit.GCode || c.Grant == vkit.GDevice))
+	if scoped && rapid.Bool().Draw(t, "opts.scope.on") {
+		o.Scope = rapid.SampledFrom(scopeOpts).Draw(t, "opts.scope")
+	}
+	if te {
+		o.ReqType = rapid.SampledFrom([]string{"", "access", "refresh", "refresh", "id", "jwt", "bogus"}).Draw(t, "opts.reqtype")
+		o.SubjType = rapid.SampledFrom([]string{"", "", "access", "id"}).Draw(t, "opts.subjtype")
+		o.Actor = rapid.SampledFrom([]string{"", "", "", "access", "refresh"}).Draw(t, "opts.actor")
+		o.Audience = rapid.SliceOfN(rapid.SampledFrom(audienceSet), 0, 2).Draw(t, "opts.audience")
+		o.Resource = rapid.SliceOfN(rapid.SampledFrom([]string{"https://api.example.com/a", "https://files.example.com"}), 0, 2).Draw(t, "opts.resource")
+		if len(o.Audience) == 0 {
+			o.Audience = nil
+		}
+		if len(o.Resource) == 0 {
+			o.Resource = nil
+		}
+	}
+	if c.Endpoint == "introspection" {
+		o.Hint = rapid.SampledFrom([]string{"", "access_token", "refresh_token", "bogus"}).Draw(t, "opts.hint")
+	}
+	if (*o).isZero() {
+		return
+	}
+	c.Opts = o
+}
+
+func (o Opts) isZero() bool {
+	return o.Scope == "" && o.ReqType == "" && o.SubjType == "" && o.Actor == "" && len(o.Audience) == 0 && len(o.Resource) == 0 && o.Hint == ""
+}
+
+func (c Case) opts() Opts {
+	if c.Opts == nil {
+		return Opts{}
+	}
+	return *c.Opts
+}
+
+// optsGrey: optional parameters for which a refusal of an otherwise legitimate request is in order (or the success has another
+// shape), so that completeness is not asserted; the must-refuse side never depends on them.
+func optsGrey(c Case) string {
+	o := c.opts()
+	if c.Endpoint == "token" {
+		switch c.Grant {
+		case vkit.GRefr:
+			// the seeded grant has the scopes openid profile: anything else is not a subset
+			switch o.Scope {
+			case "", "-", "openid", "profile", "openid profile":
+			default:
+				return "scope-beyond-the-grant"
+			}
+		case vkit.GTE:
+			switch o.ReqType {
+			case "jwt", "bogus":
+				return "requested-token-type-not-issuable"
+			}
+		}
+	}
+	return ""
 }
 
 // ---- reference model (from the statement; no library calls) ---------------------------
@@ -331,6 +481,19 @@ type verdict struct {
 	V       int      // +1 must accept, -1 must refuse, 0 grey
 	Reasons []string // must-refuse reasons (V<0) or grey reasons (V==0)
 	Auth    authVerdict
+	// Foreign: the request carries material of the other client, and nothing in the request authenticates that client: whatever
+	// the standing of the caller, that material must not be honoured (no tokens for it, no active:true about it, not revoked).
+	Foreign bool
+	// ZServable: the client_id riding along names the other client and the statement lets the endpoint act for it on this
+	// request without a credential (public client; device authorization by a known client registered for the grant).
+	ZServable bool
+}
+
+const foreignMaterial = "foreign-material"
+
+// onlyForeign: the caller itself is in order (or grey); the only thing that must not happen is that the other client's material is honoured.
+func (v verdict) onlyForeign() bool {
+	return v.V < 0 && len(v.Reasons) == 1 && v.Reasons[0] == foreignMaterial
 }
 
 func grantDisabled(g string, f Flags) bool {
@@ -355,7 +518,49 @@ func consistentApp(r Reg) bool {
 }
 
 // judge is the oracle: which side of the statement is this cell on?
+//
+// Two questions are kept apart. (1) The standing of the CALLER, i.e. of the client the credentials name: authenticated in the
+// registered way, grant registered and enabled (judgeCaller, a function of the presentation and that client's registration).
+// (2) For WHOM the endpoint would be acting if it honoured the material in the request: the owner of that material. When the
+// owner is the other client - which no generated request authenticates: its secret is only ever presented under the caller's
+// id, assertions naming it are signed with the caller's key - honouring the material is acting for a client that has not
+// authenticated, whoever else has. A client_id that rides along (form or URL) and names the other client changes nothing
+// about that, unless the other client is one the statement lets an endpoint act for without a credential; then the case is grey.
 func judge(c Case) verdict {
+	v := judgeCaller(c)
+	zr := c.zReg()
+	if c.BodyID == "other" {
+		switch {
+		case c.Endpoint == "device_authorization":
+			v.ZServable = has(zr.Grants, vkit.GDevice)
+		case zr.AuthMethod == mNone:
+			v.ZServable = true
+		case !consistentApp(zr):
+			// confidential by auth method, public by application type: see app-type-vs-auth-method
+			v.ZServable = true
+		}
+	}
+	requestLevel := false
+	if v.V < 0 {
+		for _, r := range v.Reasons {
+			if r == "grant-missing" || r == "grant-unsupported" || r == "grant-disabled" {
+				requestLevel = true
+			}
+		}
+	}
+	if v.ZServable && !requestLevel {
+		return verdict{V: 0, Reasons: []string{"rider-names-servable-client"}, Auth: v.Auth, ZServable: true}
+	}
+	if c.Owner == "other" && ownerMaterial(c) {
+		v.Foreign = true
+		if v.V >= 0 {
+			v.V, v.Reasons = -1, []string{foreignMaterial}
+		}
+	}
+	return v
+}
+
+func judgeCaller(c Case) verdict {
 	a := authClass(c)
 	r := c.Reg
 	var refuse, grey []string
@@ -457,7 +662,7 @@ func judge(c Case) verdict {
 		}
 	}
 	if len(refuse) > 0 {
-		return verdict{-1, refuse, a}
+		return verdict{V: -1, Reasons: refuse, Auth: a}
 	}
 	if c.BodyID == "other" || c.BodyID == "ghost" {
 		grey = append(grey, "conflicting-client-id")
@@ -468,10 +673,13 @@ func judge(c Case) verdict {
 	if c.Fault != "" {
 		grey = append(grey, "storage-fault-planned")
 	}
-	if len(grey) > 0 {
-		return verdict{0, grey, a}
+	if g := optsGrey(c); g != "" {
+		grey = append(grey, "optional-parameter:"+g)
 	}
-	return verdict{+1, nil, a}
+	if len(grey) > 0 {
+		return verdict{V: 0, Reasons: grey, Auth: a}
+	}
+	return verdict{V: +1, Auth: a}
 }
 
 // ---- execution ---------------------------------------------------------------------
@@ -508,6 +716,12 @@ func mkAssertion(kind string, n, o party, now time.Time) string {
 		return assertion(ghostID, ghostID, issuer, n.kid, n.key, iat, exp)
 	}
 	return assertion(n.id, n.id, issuer, n.kid, n.key, iat, exp)
+}
+
+// idToken: an ID token of this provider for user u1 and the given client, signed with the provider's signing key (sig1).
+func idToken(clientID string, now time.Time) string {
+	return vkit.AssertionWith(issuer, "u1", []string{clientID}, "sig1", "rsa1", now.Add(-5*time.Second), now.Add(5*time.Minute),
+		map[string]any{"auth_time": now.Add(-10 * time.Second).Unix(), "azp": clientID})
 }
 
 // applyCred adds the presentation to form / header. n is the client the request names as a caller who knows the registration
@@ -555,13 +769,15 @@ func applyCred(c Case, n, o party, form url.Values, hdr http.Header, now time.Ti
 	default:
 		cr = vkit.Cred{Kind: "assertion", Assertion: mkAssertion(strings.TrimPrefix(c.Pres, "assert-"), n, o, now)}
 	}
-	switch c.BodyID {
-	case "same":
-		cr.BodyID = n.id
-	case "other":
-		cr.BodyID = o.id
-	case "ghost":
-		cr.BodyID = ghostID
+	if c.RiderIn == "" {
+		switch c.BodyID {
+		case "same":
+			cr.BodyID = n.id
+		case "other":
+			cr.BodyID = o.id
+		case "ghost":
+			cr.BodyID = ghostID
+		}
 	}
 	cr.Apply(form, hdr)
 	if c.Pres == "assert-badtype" {
@@ -661,9 +877,10 @@ func run(c Case) (res *vkit.Result) {
 			if onSecond {
 				where = "the second provider"
 			}
+			oreg := c.regAt(other, onSecond, false)
 			rq := request{site: on, n: c.party(s.Who, on.alt), o: c.party(other, on.alt),
 				prefix: fmt.Sprintf("(prelude request %d of %d, on %s, naming client %s) ", i+1, len(h.Prelude), where, s.Who),
-				c: Case{ErrStyle: c.ErrStyle, Router: on.router, Flags: c.Flags, Reg: c.regAt(s.Who, onSecond, false), Endpoint: s.Endpoint, Grant: s.Grant,
+				c: Case{ErrStyle: c.ErrStyle, Router: on.router, Flags: c.Flags, Reg: c.regAt(s.Who, onSecond, false), Z: &oreg, Endpoint: s.Endpoint, Grant: s.Grant,
 					Pres: s.Pres, ParamsIn: "body", GrantAssertion: s.GrantAssertion, TokenKind: s.TokenKind}}
 			o := rq.do(res)
 			if o == nil {
@@ -675,6 +892,8 @@ func run(c Case) (res *vkit.Result) {
 	tc := c
 	tc.Hist = nil
 	tc.Reg = c.regAt("x", false, true)
+	zreg := c.regAt("z", false, true)
+	tc.Z = &zreg
 	rq := request{site: primary, c: tc, n: c.party("x", false), o: c.party("z", false), final: true}
 	if c.Hist != nil {
 		if c.Hist.Change == "deleted" {
@@ -707,29 +926,35 @@ func (rq *request) do(res *vkit.Result) *outcome {
 		}
 	}
 
-	// ---- valid grant material owned by the named client (placeholders when no such client is registered) -------
+	// ---- valid grant material owned by the named client - or, Owner == "other", by the other client - (placeholders when no such client is registered) -------
 	var m material
-	seed := &vkit.AuthReq{ID: "seed", ClientID: x.id, UserID: "u1", Scopes: []string{"openid", "profile"}, IsDone: true,
+	opts := c.opts()
+	owner, ownerAbsent := x, c.Reg.Absent
+	if c.Owner == "other" && ownerMaterial(c) {
+		owner, ownerAbsent = z, false
+	}
+	seed := &vkit.AuthReq{ID: "seed", ClientID: owner.id, UserID: "u1", Scopes: []string{"openid", "profile"}, IsDone: true,
 		AuthTime: t0.Add(-3 * time.Second).Truncate(time.Second), AMR: []string{"pwd"}}
+	te := c.Endpoint == "token" && c.Grant == vkit.GTE
 	needRefresh := (c.Endpoint == "token" && (c.Grant == vkit.GRefr || c.Grant == vkit.GTE)) || (c.Endpoint == "revocation" && c.TokenKind == "refresh")
-	needAccess := c.Endpoint == "introspection" || (c.Endpoint == "revocation" && c.TokenKind == "access")
+	needAccess := c.Endpoint == "introspection" || (c.Endpoint == "revocation" && c.TokenKind == "access") || (te && (opts.SubjType == "access" || opts.Actor == "access"))
 	switch {
-	case c.Reg.Absent:
+	case ownerAbsent:
 		m.code, m.deviceCode = "no-code", "no-device-code"
 	case c.Endpoint == "token" && c.Grant == vkit.GCode:
-		q := vkit.AuthParams(st.Clients[x.id], redirect, "code", "openid profile", "st", "n1")
+		q := vkit.AuthParams(st.Clients[owner.id], redirect, "code", "openid profile", "st", "n1")
 		q.Set("code_challenge", vkit.S256(verifier))
 		q.Set("code_challenge_method", "S256")
 		fl := ag.RunAuth(q, "u1")
 		if fl.Code == "" {
-			res.Fail("C05:harness:no-code", "%scould not obtain a code for %+v: %s", rq.prefix, st.Clients[x.id], fl.AuthResp.Describe())
+			res.Fail("C05:harness:no-code", "%scould not obtain a code for %+v: %s", rq.prefix, st.Clients[owner.id], fl.AuthResp.Describe())
 			return nil
 		}
 		m.code = fl.Code
 	case c.Endpoint == "token" && c.Grant == vkit.GDevice:
 		m.deviceCode = fmt.Sprintf("device-code-%d", rq.site.n)
 		ds := st.Shaped(vkit.FullCaps).(op.DeviceAuthorizationStorage)
-		if err := ds.StoreDeviceAuthorization(ctx, x.id, m.deviceCode, fmt.Sprintf("USER-CODE-%d", rq.site.n), t0.Add(5*time.Minute), []string{"openid", "profile"}); err != nil || !st.ApproveDevice(m.deviceCode, "u1") {
+		if err := ds.StoreDeviceAuthorization(ctx, owner.id, m.deviceCode, fmt.Sprintf("USER-CODE-%d", rq.site.n), t0.Add(5*time.Minute), []string{"openid", "profile"}); err != nil || !st.ApproveDevice(m.deviceCode, "u1") {
 			res.Fail("C05:harness:no-device-code", "%scould not seed a device code: %v", rq.prefix, err)
 			return nil
 		}
@@ -780,13 +1005,58 @@ func (rq *request) do(res *vkit.Result) *outcome {
 			form.Set("assertion", mkAssertion(c.GrantAssertion, x, z, now))
 			form.Set("scope", "openid")
 		case vkit.GTE:
-			form.Set("subject_token", m.refresh)
-			form.Set("subject_token_type", string(oidc.RefreshTokenType))
+			switch opts.SubjType {
+			case "access":
+				form.Set("subject_token", m.access)
+				form.Set("subject_token_type", string(oidc.AccessTokenType))
+			case "id":
+				form.Set("subject_token", idToken(owner.id, now))
+				form.Set("subject_token_type", string(oidc.IDTokenType))
+			default:
+				form.Set("subject_token", m.refresh)
+				form.Set("subject_token_type", string(oidc.RefreshTokenType))
+			}
+			switch opts.ReqType {
+			case "access":
+				form.Set("requested_token_type", string(oidc.AccessTokenType))
+			case "refresh":
+				form.Set("requested_token_type", string(oidc.RefreshTokenType))
+			case "id":
+				form.Set("requested_token_type", string(oidc.IDTokenType))
+			case "jwt":
+				form.Set("requested_token_type", string(oidc.JWTTokenType))
+			case "bogus":
+				form.Set("requested_token_type", "urn:example:token-type:bogus")
+			}
+			switch opts.Actor {
+			case "access":
+				form.Set("actor_token", m.access)
+				form.Set("actor_token_type", string(oidc.AccessTokenType))
+			case "refresh":
+				form.Set("actor_token", m.refresh)
+				form.Set("actor_token_type", string(oidc.RefreshTokenType))
+			}
+			for _, a := range opts.Audience {
+				form.Add("audience", a)
+			}
+			for _, r := range opts.Resource {
+				form.Add("resource", r)
+			}
 		case vkit.GDevice:
 			form.Set("device_code", m.deviceCode)
 		}
+		switch opts.Scope {
+		case "":
+		case "-":
+			form.Del("scope")
+		default:
+			form.Set("scope", opts.Scope)
+		}
 	case "introspection":
 		form.Set("token", m.access)
+		if opts.Hint != "" {
+			form.Set("token_type_hint", opts.Hint)
+		}
 	case "revocation":
 		if c.TokenKind == "refresh" {
 			form.Set("token", m.refresh)
@@ -798,20 +1068,45 @@ func (rq *request) do(res *vkit.Result) *outcome {
 		}
 	case "device_authorization":
 		form.Set("scope", "openid profile")
+		switch opts.Scope {
+		case "":
+		case "-":
+			form.Del("scope")
+		default:
+			form.Set("scope", opts.Scope)
+		}
 	}
 	applyCred(c, x, z, form, hdr, now)
 	target := path
+	query := url.Values{}
+	if c.RiderIn == "url" {
+		switch c.BodyID {
+		case "same":
+			query.Add("client_id", x.id)
+		case "other":
+			query.Add("client_id", z.id)
+		case "ghost":
+			query.Add("client_id", ghostID)
+		}
+	}
 	switch c.ParamsIn {
 	case "query-grant":
 		if gt := form.Get("grant_type"); gt != "" {
-			target += "?" + url.Values{"grant_type": {gt}}.Encode()
+			query.Set("grant_type", gt)
 			form.Del("grant_type")
 		}
-	case "query-all":
-		if len(form) > 0 {
-			target += "?" + form.Encode()
-			form = url.Values{}
+	case "query-all", "get":
+		// everything travels in the URL: the riding client_id comes after the one of the presentation
+		for _, v := range query["client_id"] {
+			form.Add("client_id", v)
 		}
+		query = url.Values{}
+		if c.ParamsIn == "query-all" {
+			query, form = form, url.Values{}
+		}
+	}
+	if len(query) > 0 {
+		target += "?" + query.Encode()
 	}
 	tokensBefore := map[string]bool{}
 	for id := range st.Tokens {
@@ -855,7 +1150,7 @@ func (rq *request) do(res *vkit.Result) *outcome {
 	if faultFired {
 		// the endpoint could not look the client / its secret / its key up: it has not authenticated anybody
 		if v.V >= 0 {
-			v = verdict{-1, nil, v.Auth}
+			v.V, v.Reasons = -1, nil
 		}
 		v.Reasons = append(v.Reasons, "storage-fault:"+c.Fault)
 	}
@@ -892,8 +1187,23 @@ func (rq *request) do(res *vkit.Result) *outcome {
 		if c.Reg.Absent {
 			reg = "a client that is not registered at this time"
 		}
-		return fmt.Sprintf("%s%s %s by %s presenting %q (body client_id %q, params %s, flags %+v): %s",
-			rq.prefix, c.Router, w, reg, c.Pres, c.BodyID, c.ParamsIn, c.Flags, resp.Describe())
+		extra := ""
+		if c.BodyID == "other" || c.Owner == "other" {
+			zr := c.zReg()
+			extra = fmt.Sprintf("; other client %q{method=%s app=%s grants=%v}", z.id, zr.AuthMethod, zr.AppType, zr.Grants)
+		}
+		if c.Owner == "other" && ownerMaterial(c) {
+			extra += "; the material in the request belongs to the OTHER client"
+		}
+		if c.Opts != nil {
+			extra += fmt.Sprintf("; optional parameters %+v", *c.Opts)
+		}
+		rider := c.BodyID
+		if c.RiderIn != "" {
+			rider += " in the " + c.RiderIn
+		}
+		return fmt.Sprintf("%s%s %s by %s presenting %q (riding client_id %q, params %s, flags %+v%s): %s",
+			rq.prefix, c.Router, w, reg, c.Pres, rider, c.ParamsIn, c.Flags, extra, resp.Describe())
 	}
 
 	if resp.Panic != nil {
@@ -905,15 +1215,32 @@ func (rq *request) do(res *vkit.Result) *outcome {
 	// assertion signed with somebody else's key names
 	if resp.Success() {
 		for _, cid := range actedFor {
-			if cid != x.id {
-				res.Fail("C05:acted-for-unauthenticated-client:"+cell, "the endpoint issued material to client %q which did not authenticate (a client_id that merely rides along in the form has no grant at all): %s", cid, desc())
+			if cid != x.id && !(v.ZServable && cid == z.id) {
+				res.Fail("C05:acted-for-unauthenticated-client:"+cell, "the endpoint issued material to client %q which did not authenticate (a client_id that merely rides along in the request is no credential): %s", cid, desc())
 			}
+		}
+	}
+	// material of the other client, which nothing in the request authenticates: it must not be honoured, whoever the caller is
+	if v.Foreign && resp.Panic == nil && (len(found) > 0 || revoked) {
+		label("foreign-material-honoured")
+		res.Fail("C05:acted-for-unauthenticated-client:"+cell, "the request carries material of client %q, whose credentials it does not carry (at most client %q has authenticated), "+
+			"and the endpoint honoured it (response carries %v, token revoked: %v): %s", z.id, x.id, found, revoked, desc())
+	}
+	if v.Foreign {
+		label("foreign-material", "foreign@"+w, "foreign:caller-"+[]string{"refused", "grey", "in-order"}[judgeCaller(c).V+1])
+		if c.BodyID == "other" {
+			label("foreign+rider")
 		}
 	}
 
 	switch {
 	case v.V < 0:
 		primary := primaryReason(c, v.Reasons)
+		if v.onlyForeign() {
+			// judged above; the status of the answer is not asserted (introspection answers 200 active:false, revocation 200)
+			label("must-refuse", "refuse:"+foreignMaterial, "refuse@"+w)
+			break
+		}
 		label("must-refuse", "refuse:"+primary, "refuse@"+w)
 		if resp.Panic == nil {
 			fp := "C05:accepted:" + cell + ":" + primary
@@ -949,7 +1276,9 @@ func (rq *request) do(res *vkit.Result) *outcome {
 			case "token":
 				ok = ok && resp.Str("access_token") != ""
 				what = "an access token"
-				if ok && (len(actedFor) == 0 || actedFor[0] != x.id) {
+				if c.Grant == vkit.GTE && c.opts().ReqType == "id" {
+					// an ID token is not stored
+				} else if ok && (len(actedFor) == 0 || actedFor[0] != x.id) {
 					ok, what = false, "a token stored for the client"
 				}
 			case "introspection":
@@ -984,6 +1313,27 @@ func (rq *request) do(res *vkit.Result) *outcome {
 	res.Label("router:"+c.Router, "method:"+c.Reg.AuthMethod, "pres:"+c.Pres, "outcome:"+outcome)
 	if c.BodyID != "" {
 		res.Label("bodyid:" + c.BodyID)
+		if c.RiderIn != "" {
+			res.Label("rider-in:" + c.RiderIn)
+		}
+		if c.BodyID == "other" {
+			res.Label("rider:z-method:" + c.zReg().AuthMethod)
+		}
+	}
+	if o := c.opts(); !o.isZero() {
+		res.Label("opts")
+		if o.Scope != "" {
+			res.Label("opts:scope@" + w)
+		}
+		if c.Grant == vkit.GTE {
+			res.Label("opts:te:requested="+o.ReqType, "opts:te:subject="+o.SubjType, "opts:te:actor="+o.Actor)
+			if len(o.Audience) > 0 || len(o.Resource) > 0 {
+				res.Label("opts:te:audience/resource")
+			}
+		}
+		if o.Hint != "" {
+			res.Label("opts:introspection-hint")
+		}
 	}
 	if c.ParamsIn != "body" {
 		res.Label("params:" + c.ParamsIn)
@@ -1003,6 +1353,13 @@ func (rq *request) do(res *vkit.Result) *outcome {
 	}
 	res.Key = fmt.Sprintf("%s|%s|%s|web=%v|keys=%v|svc=%v|sp=%v|ss=%v|reg=%v|%+v|%s|%s|%s|%s|%s%s|%s|v=%d|%s", c.Router, w, c.Reg.AuthMethod, c.Reg.AppType == "web", c.Reg.HasKeys,
 		c.Reg.Service, c.Reg.Special, c.Reg.StoredSecret, registered, c.Flags, c.Pres, c.BodyID, c.ParamsIn, c.GrantAssertion, c.TokenKind, c.Hint, c.Fault, v.V, reasons)
+	if c.Owner != "" || c.RiderIn != "" || c.BodyID == "other" {
+		zr := c.zReg()
+		res.Key += fmt.Sprintf("|owner=%s|rider-in=%s|z=%s,web=%v", c.Owner, c.RiderIn, zr.AuthMethod, zr.AppType == "web")
+	}
+	if c.Opts != nil {
+		res.Key += fmt.Sprintf("|opts=%+v", *c.Opts)
+	}
 	res.Info = map[string]any{"verdict": v.V, "reasons": v.Reasons, "auth": v.Auth.reason, "status": resp.Status, "error": errCode, "material": found, "acted_for": actedFor}
 	return out
 }
